@@ -8,8 +8,8 @@ UNITS = {'kd': dict(wrap='wrap.cc', shim=True, new_block=128, cxxflags=['-DVERIF
 BOUNDS = ('KDTree<Vector2<int64_t>,int>: P inserts of symbolic points from the 3x3 grid {0,1,2}^2 with symbolic values {0,1} (duplicate points, '
           'identical (point,value) entries and shared coordinates included), then E erase(point,value) calls with symbolic arguments '
           '(hit or miss), then (a) at/exists for a symbolic probe point, (b) exists(lo,hi)/within(lo,hi) for a symbolic half-open box with '
-          'corners in {0..3}^2, (c) iteration begin()..end(); each followed by the destructor. Quick: (P,E) in {(0,0),(1,0),(1,1),(2,1),(3,0)} '
-          'for all three plus (3,1) for lookup and iteration; thorough adds (2,2),(3,1),(3,2),(4,0) for all three and (4,1) for lookup and iteration. '
+          'corners in {0..3}^2, (c) iteration begin()..end(); each followed by the destructor. Quick: (P,E) in {(0,0),(1,0),(1,1),(2,1)} '
+          'for all three, (3,0) for lookup and iteration, (3,1) for lookup; thorough: (2,2),(3,0),(3,1),(3,2),(4,0) for all three and (4,1) for lookup and iteration. '
           'Erase while iterating (erase_advance under a symbolic predicate over the entries, then size/iteration/exists): P <= 2 quick, P <= 3 thorough.')
 STUBS = ['std::deque -> engine/shim/deque (fixed-capacity FIFO of 5 slots, never reuses popped slots; overflow is an assertion failure, not reached for P <= 4)']
 OUTSIDE = ['more than 4 points; grids larger than 3x3 (ties along both axes, duplicates and identical entries are present in the 3x3 grid)',
@@ -21,18 +21,24 @@ ASSUMPTIONS = ['a box query on an empty tree is expected to return an empty resu
 
 
 def _cells(tier, what):
-    quick = [(0, 0), (1, 0), (1, 1), (2, 1), (3, 0)]
+    quick = [(0, 0), (1, 0), (1, 1), (2, 1)]
     if what in ('lookup', 'iter'):
+        quick.append((3, 0))
+    if what == 'lookup':
         quick.append((3, 1))
     if tier == 'quick':
         return quick
-    extra = [(2, 2), (3, 1), (3, 2), (4, 0)]
+    extra = [(2, 2), (3, 0), (3, 1), (3, 2), (4, 0)]
     if what in ('lookup', 'iter'):
         extra.append((4, 1))
     return quick + [c for c in extra if c not in quick]
 
 
-_MEM = {  # measured peak memory (GB, rounded up) of the larger cells; everything else stays below 3 GB
+_MEM = {  # address-space cap per query (GB): measured peak RSS (box_p3_e2 9.1+, erase_iter_p3 7.3+, lookup/iter_p4_e1 4.4) plus headroom;
+    # cells not listed stay below 3 GB
+    'box_p3_e2': 12, 'erase_iter_p3': 10, 'box_p3_e1': 8, 'box_p4_e0': 8, 'box_p2_e2': 8, 'lookup_p3_e2': 8, 'iter_p3_e2': 8,
+    'lookup_p4_e1': 6, 'iter_p4_e1': 6, 'lookup_p3_e1': 6, 'iter_p3_e1': 6, 'box_p2_e1': 6, 'box_p3_e0': 6, 'erase_iter_p2': 6,
+    'lookup_p2_e2': 5, 'iter_p2_e2': 5, 'lookup_p2_e1': 4, 'iter_p2_e1': 4, 'lookup_p4_e0': 4, 'iter_p4_e0': 4,
 }
 
 
